@@ -54,7 +54,9 @@ def assigned_self_fields(body):
 
 def is_cache_reset(rhs):
     s = repr(rhs)
-    return 'OnceLock' in s and "'new'" in s or 'cache_default' in s or "'default'" in s and 'OnceLock' in s
+    # `OnceLock::from(v)` re-fills the cache eagerly (MvGaussian::set_cov_unchecked): that the value is the fresh one is
+    # the business of the history correspondence, here it counts as a re-initialisation
+    return 'OnceLock' in s and ("'new'" in s or "'from'" in s) or 'cache_default' in s or "'default'" in s and 'OnceLock' in s
 
 
 class TypeFacts:
@@ -151,36 +153,76 @@ def extract(reg):
         setters = []
         for m, fi in sorted(inh.items()):
             ps = fi.fn[2]
-            if not ps or ps[0] != ('self', '&mut Self') or fi.fn[4] is None:
+            if not ps or ps[0] != ('self', '&mut Self'):
+                continue
+            if fi.fn[4] is None:
+                if fi.fn[5]:
+                    # the body could not be parsed: unknown effects = may write every parameter, resets nothing
+                    setters.append((m, sorted(params), []))
                 continue
 
             def effects(mm, seen=None):
+                """(writes, resets) as sets of (field, path); path = tuple of the conditional branches enclosing the
+                statement.  A reset only counts when it is an actual re-initialisation of the cache field."""
                 seen = seen or set()
+                if mm in inh and inh[mm].fn[4] is None and inh[mm].fn[5] and inh[mm].fn[2] and inh[mm].fn[2][0] == ('self', '&mut Self'):
+                    return {(p_, ()) for p_ in params}, set()       # unparsed callee: unknown effects
                 if mm in seen or mm not in inh or inh[mm].fn[4] is None:
                     return set(), set()
-                seen.add(mm)
+                seen = seen | {mm}
                 w, r = set(), set()
-                for fld, rhs in assigned_self_fields(inh[mm].fn[4]):
-                    if fld == '*':
-                        w |= set(params)
-                        r |= set(caches)
-                    elif fld in caches:
-                        r.add(fld)
+
+                def visit(n, path):
+                    if isinstance(n, list):
+                        for x in n:
+                            visit(x, path)
+                        return
+                    if not isinstance(n, tuple) or not n:
+                        return
+                    tag = n[0]
+                    if tag == 'assign' and isinstance(n[2], tuple) and n[2] and n[2][0] == 'field' and n[2][1] == ('path', ['self']):
+                        fld = n[2][2]
+                        if fld in caches:
+                            if is_cache_reset(n[3]):
+                                r.add((fld, path))
+                        else:
+                            w.add((fld, path))
+                    elif tag == 'assign' and isinstance(n[2], tuple) and n[2] and n[2][0] == 'deref' and n[2][1] == ('path', ['self']):
+                        for p_ in params:
+                            w.add((p_, path))
+                        for c_ in caches:
+                            r.add((c_, path))
+                    elif tag == 'mcall' and n[1] == ('path', ['self']):
+                        w2, r2 = effects(n[2], seen)
+                        for (f_, p2) in w2:
+                            w.add((f_, path + p2))
+                        for (f_, p2) in r2:
+                            r.add((f_, path + p2))
+                    elif tag == 'mcall' and n[2] in ('clear', 'take', 'resize') and 'self' in repr(n[1]):
+                        # cache cleared through a method call on the field (e.g. self.cache.borrow_mut().clear())
+                        for c_ in caches:
+                            if c_ in repr(n[1]):
+                                r.add((c_, path))
+                    if tag in ('if', 'iflet', 'match', 'while', 'whilelet', 'for', 'closure', 'loop'):
+                        # every syntactic child of a conditional / loop / closure is a separate conditional region
+                        for i, x in enumerate(n[1:]):
+                            visit(x, path + ((id(n), i),))
                     else:
-                        w.add(fld)
-                for cm in self_calls(inh[mm].fn[4]):
-                    w2, r2 = effects(cm, seen)
-                    w |= w2
-                    r |= r2
-                # cache cleared through a method call on the field (e.g. self.cache.borrow_mut().clear())
-                def g(n):
-                    if n and n[0] == 'mcall' and n[2] in ('clear', 'take', 'resize') and 'self' in repr(n[1]):
-                        for c in caches:
-                            if c in repr(n[1]):
-                                r.add(c)
-                walk(inh[mm].fn[4], g)
+                        for x in n[1:]:
+                            visit(x, path)
+                visit(inh[mm].fn[4], ())
                 return w, r
-            w, r = effects(m)
+            w_, r_ = effects(m)
+            w = {f_ for (f_, _) in w_}
+            # a cache counts as reset by this method only if every write is dominated by a reset of it: the reset sits in
+            # the same or an enclosing region (a reset guarded by its own condition does not cover an unconditional write)
+            r = set()
+            for c_ in caches:
+                rp = [p_ for (f_, p_) in r_ if f_ == c_]
+                if not rp:
+                    continue
+                if all(any(p_[:len(q)] == q for q in rp) for (_, p_) in w_) if w_ else True:
+                    r.add(c_)
             if not w and not r:
                 continue
             setters.append((m, sorted(w), sorted(r)))
